@@ -17,7 +17,10 @@ CFG = {
             "Stream C29 (distinct names): each client works on its own names (CREATE WRITE READ SETATTR REMOVE RENAME SYMLINK "
             "MKDIR RMDIR LOOKUP GETATTR ACCESS COMMIT READDIR(PLUS), 80% state-aware / 20% random incl. error paths) in the "
             "shared root, a shared subdirectory (65%) and an own subdirectory; attribute TTL 1 ns, negative and directory caching "
-            "off; Coq searches for a linearization against Model/Srv.step. Stream C29b (caches on, TTL 10 min so nothing "
+            "off; Coq searches for a linearization against Model/Srv.step; one history in five concentrates the long stalls right after "
+            "backend ReadAt calls with READs of per-client distinguishable files making up ~45% of the requests (the window between a "
+            "READ's backend read and its reply); corpus = 5 directed schedules holding a READ just before its post-op attribute "
+            "Lstat while other clients READ / WRITE / READDIRPLUS / LOOKUP other files to completion (GOMAXPROCS 1). Stream C29b (caches on, TTL 10 min so nothing "
             "expires): one writer mutating shared names, 1-3 readers LOOKUP/GETATTR/ACCESS/READDIR(PLUS) the same names, negative "
             "and directory caching each on in 60%; the backend state after every successful mutating backend call is recorded "
             "with its logical time; corpus = 17 DIRECTED schedules: 6 of the check-then-cache window (reader delayed between its "
@@ -27,6 +30,8 @@ CFG = {
             "history incl. precedence; non-trivial = at least one pair of overlapping requests of different clients and one "
             "successful backend mutation",
     "assumptions": [
+        "in -race builds the driver re-executes itself with GORACE=exitcode=0 log_path=...: a race report marks the history during "
+        "which it appeared (k_race, code 2 at step 9009, report text in the replay) instead of only failing the whole driver",
         "the backend is thread-safe (specfs serialises every call under one mutex) and honours the absfs contract of Model/Backend.v",
         "real clock: a 1 ns attribute TTL has expired whenever another goroutine looks (time.Now() steps >= 40 ns here); stream C29b's "
         "10 min TTLs never expire within a run",
